@@ -68,21 +68,45 @@ def to_classes(spec: dict) -> list[dict]:
             if f.get("kw_only"):
                 flags["kw_only"] = True
             fields.append({"name": f["name"], "ann": ann_of(kind), "default": default, "flags": flags, "kind": kind})
-        classes.append({"name": f"C{i}", "base": f"C{i - 1}" if i else None, "fields": fields, "kw_only": c.get("kw_only", False)})
+        bases = [f"C{j}" for j in c["bases"]] if c.get("bases") else None
+        classes.append({"name": f"C{i}", "base": f"C{i - 1}" if i else None, "bases": bases, "fields": fields,
+                        "kw_only": c.get("kw_only", False)})
     return classes
 
 
-def effective(classes: list[dict], k: int) -> list[dict]:
-    out: list[dict] = []
-    for c in classes[: k + 1]:
-        for f in c["fields"]:
-            for i, g in enumerate(out):
-                if g["name"] == f["name"]:
-                    out[i] = f
+def lineage(classes: list[dict], k: int) -> list[int]:
+    """indices of the classes contributing fields to class k, in dataclass (reverse MRO) order"""
+    def lin(i: int) -> list[int]:
+        c = classes[i]
+        bases = [int(b[1:]) for b in c["bases"]] if c.get("bases") else ([i - 1] if c["base"] else [])
+        seqs = [lin(b) for b in bases] + [list(bases)]
+        out = [i]
+        seqs = [s for s in seqs if s]
+        while seqs:
+            for s in seqs:
+                head = s[0]
+                if not any(head in t[1:] for t in seqs):
                     break
-            else:
-                out.append(f)
-    return out
+            out.append(head)
+            seqs = [[x for x in t if x != head] for t in seqs]
+            seqs = [t for t in seqs if t]
+        return out
+
+    return list(reversed(lin(k)))
+
+
+def effective(classes: list[dict], k: int) -> list[dict]:
+    """dataclass semantics: the complete field tables of the bases are merged in reverse MRO order
+    (a base contributes its inherited fields too), then the class' own fields; an overriding
+    definition keeps the position of the first one."""
+    table: dict[str, dict] = {}
+    mro = list(reversed(lineage(classes, k)))  # class itself first
+    for b in reversed(mro[1:]):
+        for f in effective(classes, b):
+            table[f["name"]] = f
+    for f in classes[k]["fields"]:
+        table[f["name"]] = f
+    return list(table.values())
 
 
 def make_instance(mod: CF.Module, cls: Any, eff: list[dict], variant: int) -> tuple[Any, dict]:
@@ -212,8 +236,11 @@ def check_hierarchy(data: dict, lab: Labels) -> None:
     lab.tag_if(both, "noninit-noncompare")
     lab.tag_if(n >= 2, "levels>=2")
     lab.tag_if(any(c.get("kw_only") for c in classes), "kw_only")
+    lab.tag_if(any(c.get("bases") and len(c["bases"]) > 1 for c in classes), "multiple-inheritance")
     lab.nontrivial = (n >= 2 and override) or both or any(f["kind"] not in PROP_KINDS for c in classes for f in c["fields"])
     orders = list(itertools.permutations(range(n)))
+    if len(orders) > 6:  # 4 classes: combining class first / last, base first / last, two mixed orders
+        orders = [(0, 1, 2, 3), (3, 2, 1, 0), (3, 0, 1, 2), (1, 3, 2, 0), (2, 1, 3, 0), (1, 2, 0, 3)]
     first_summary = None
     for order in orders:
         mod = CF.build(classes, postponed=bool(data.get("postponed")))
@@ -247,7 +274,7 @@ def st_hierarchy(ctx: Ctx):
         return st.lists(st.sampled_from(names), max_size=5, unique=True).flatmap(
             lambda ns: st.tuples(*[field(n) for n in ns]).map(list) if ns else st.just([]))
 
-    def fix(levels: list[list[dict]], kws: list[bool], postponed: bool) -> dict:
+    def fix(levels: list[list[dict]], kws: list[bool], postponed: bool, diamond: bool = False) -> dict:
         # an override keeps the kind of the field it overrides
         kind_of: dict[str, str] = {}
         out = []
@@ -261,10 +288,14 @@ def st_hierarchy(ctx: Ctx):
                 kind_of[f["name"]] = f["kind"]
                 lv.append(f)
             out.append({"fields": lv, "kw_only": kw})
+        if diamond and len(out) == 3:
+            # C0 <- C1, C0 <- C2, C3(C1, C2): the last class combines two bases (often with no own fields)
+            out[2]["bases"] = [0]
+            out.append({"fields": [], "kw_only": False, "bases": [1, 2]})
         return {"levels": out, "postponed": postponed}
 
     return st.tuples(st.one_of(st.lists(level(), min_size=2, max_size=3), st.lists(level(), min_size=1, max_size=3)), st.lists(st.booleans(), min_size=3, max_size=3),
-                     st.booleans()).map(lambda t: fix(t[0], t[1], t[2]))
+                     st.booleans(), st.booleans()).map(lambda t: fix(t[0], t[1], t[2], t[3]))
 
 
 PARTS = [Part("hierarchies", check_hierarchy, strategy=st_hierarchy, quick=400, thorough=16000)]
